@@ -81,6 +81,7 @@ def run(ctx, build):
             with common.quiet():
                 procutil.seed_partial_group(main, [1] * lay.N, name='Fit')
                 g = procutil.seed_partial_group(main, [1] + [0] * (lay.N - 1), name='Fit', parms={'parm_1': 2})
+                procutil.seed_partial_group(main, [1] * lay.N, name='Fit', parms={'rate': 0.5, 'gain': 3})
             f.create_group('Measurement_000/Other').create_dataset('plain', data=np.arange(5))
             # a placeholder created in an earlier writable session by the very call that is later repeated on the read-only handle,
             # already linked to its ancillaries
@@ -122,6 +123,11 @@ def run(ctx, build):
             ('reduce_in_memory_named', lambda: wrapper().reduce([rng.choice(labels)], ufunc=da.mean, dset_name='x')[0].compute()),
             ('check_for_matching_attrs', lambda: hu.check_for_matching_attrs(main.parent['Raw_Data-Fit_000'], new_parms={'parm_1': 1})),
             ('get_source_dataset', lambda: hu.get_source_dataset(main.parent['Raw_Data-Fit_000'])),
+            # a stored number asked about with a word, a stored word with a number: "no match", never an error
+            ('check_for_matching_attrs_other_kind', lambda: hu.check_for_matching_attrs(main.parent['Raw_Data-Fit_002'], new_parms={'rate': 'auto', 'gain': 3})),
+            ('check_for_old_other_kind', lambda: hu.check_for_old(main, 'Fit', new_parms={'rate': 'auto'})),
+            ('unit_values_of_both_sides_one_object', lambda: (wrapper().get_pos_values(lay.pos_labels[-1]), wrapper().get_spec_values(lay.spec_labels[0]),
+                                                              wrapper().get_pos_values(lay.pos_labels[0]))),
             ('reshape_to_n_dims', lambda: hu.reshape_to_n_dims(main, get_labels=True, lazy=rng.random() < 0.5)),
             ('get_n_dim_form', lambda: wrapper().get_n_dim_form(lazy=rng.random() < 0.5)),
             ('toggle_sorting', lambda: wrapper().toggle_sorting()),
